@@ -55,6 +55,7 @@ RULES = {
     'P7f': ('rules_wait', 'every waiter tests the writer count against zero and the awaited tag cell against the sequence number (argument roles)'),
     'P7h': ('rules_wait', 'the wake-up condition accepts a tag equal to OR ahead of the awaited sequence number'),
     'P7i': ('rules_wait', 'every loop of Wait::wait re-reads the awaited cell on each iteration (zero spin counts included)'),
+    'P7k': ('rules_wait', 'lock order: the task-list and manager locks are always taken in one order (no acquisition cycle across poll / start_send / drop)'),
     'P7j': ('rules_wait', 'fut_wait answers "retry" only after evaluating the wake-up condition (zero spin counts included)'),
     'P7g': ('rules_wait', 'the wake-up condition does not mistake a never-written slot (tag bit set) for a published one'),
     'P8': ('rules_wait', 'sender drop: writers-1 (>=Release) then unconditional waiter.notify()'),
@@ -134,7 +135,7 @@ DATAPATH = ['P1a', 'P1b', 'P1c', 'P1d', 'P1e', 'P1f', 'P1g', 'P1h', 'P2a', 'P2b'
 
 # rules of the futures adapters and of parking / waking: a broken one shows up under C13, C14 or C15 (and C11 when the
 # wake-up that follows a stream removal is lost), so those checks share them
-FUTURES = ['P2d', 'P6b', 'P6c', 'P6d', 'P7c', 'P7d', 'P7e', 'P7f', 'P7g', 'P7h', 'P7j', 'P9d', 'P11a', 'P11b', 'P11c', 'P11d', 'P11e', 'P11f',
+FUTURES = ['P2d', 'P6b', 'P6c', 'P6d', 'P7c', 'P7d', 'P7e', 'P7f', 'P7g', 'P7h', 'P7j', 'P7k', 'P9d', 'P11a', 'P11b', 'P11c', 'P11d', 'P11e', 'P11f',
            'P11g', 'P11h', 'P11i', 'P8']
 
 PROPS = {
@@ -143,11 +144,12 @@ PROPS = {
     'C03': DATAPATH,
     'C04': DATAPATH + ['W14'],
     'C05': DATAPATH + ['P13c', 'P13e', 'P13g', 'W14'],
-    'C06': DATAPATH,
+    # ... a send refused for good (Disconnected raised while streams exist) is a refused send the quiescent state does not explain
+    'C06': DATAPATH + ['W10', 'C13map', 'P9c'],
     # ... and a futures Stream only learns of the last value / of the end when its parked task is woken: the stream
     # side of the parking protocol belongs here as well
     'C07': ['P3f', 'P6b', 'W6', 'P2e', 'P8', 'P7a', 'P7b', 'P7f', 'P7i', 'S3', 'O3', 'P2d', 'P7c', 'P7d', 'P7g', 'P7h', 'P7j', 'P11c', 'P11g'],
-    'C08': ['P7a', 'P7b', 'P7f', 'P7h', 'P7i', 'P2d', 'P8', 'P6b', 'P6c', 'P6d'],
+    'C08': ['P7a', 'P7b', 'P7f', 'P7h', 'P7i', 'P7k', 'P2d', 'P8', 'P6b', 'P6c', 'P6d'],
     'C09': ['P1a', 'P1b', 'P1h', 'P3f', 'P6b', 'P9b', 'P9c', 'P9f', 'P9g', 'P10a', 'P10b', 'P10e', 'P10h', 'P11a', 'P11b', 'P11c', 'S1', 'S3', 'W10', 'W13', 'P15i', 'C13map', 'P15', 'P15m', 'P15w', 'P7e', 'P7f'],
     'C10': ['P10a', 'P10b', 'P10c', 'P10d', 'P10f', 'P10g', 'P10h', 'P15', 'P15m', 'P15w', 'P3t', 'P5a', 'S5', 'W9'],
     'C11': ['P9a', 'P9b', 'P9c', 'P9d', 'P9f', 'P10b', 'P10h', 'P11i', 'P10d', 'P10e', 'P10f', 'P10g', 'P1b', 'P11e', 'P11g', 'P12d'],
@@ -157,7 +159,7 @@ PROPS = {
     'C15': FUTURES + ['P7a', 'S3'],
     'C16': ['P6a', 'P12k', 'P13e', 'W9', 'W12', 'P12a', 'P12b', 'P12c', 'P12d', 'P12e', 'P12f', 'P12g', 'P12i', 'P13d', 'P10c', 'P10d', 'P10f', 'P9e'],
     'C17': ['P6a', 'P12k', 'P13e', 'P13f', 'P13g', 'P12e', 'P12f', 'P12g', 'P12h', 'P12i', 'P13a', 'P13b', 'P13d', 'P9e', 'P10c', 'P10d'],
-    'C18': ['P14', 'P14n'],
+    'C18': ['P14', 'P14n', 'P7k'],
 }
 
 UNDECIDED = {
